@@ -342,6 +342,13 @@ func TestC20CLI(t *testing.T) {
 	defer os.RemoveAll(dir)
 	rapidCheck(t, col, func(rt *rapid.T) {
 		pr := gen.Program(rt, gen.ProgOpts{Depth: 2, Block: 3, Funcs: 1, Ternary: true, Switch: true, EarlyRet: true, ErrStmts: true, NoSqrtFold: true})
+		// programs that the reference interpreter refuses for their size (doubling
+		// strings inside recursion, ...) would only measure the 20 s limit of the
+		// driver call: a time budget is never a verdict
+		if screen, _ := caseFromProg("C20", "cli", pr, false, "map"); screen.Exp.Unspec && strings.HasPrefix(screen.Exp.Why, "resource:") {
+			col.Excluded("resource: " + clip(screen.Exp.Why, 40))
+			return
+		}
 		// the driver knows no host functions: drop the trace()/id() statements
 		prog := stripHostCalls(pr.P)
 		script := lang.ProgramText(prog)
